@@ -13,6 +13,8 @@ with tempfile.TemporaryDirectory() as d:
     for tc in ET.parse(x).getroot().iter("testcase"):
         if not any(c.tag in ("failure", "error", "skipped") for c in tc):
             passed.add(f"{tc.get('classname')}::{tc.get('name')}")
+import shutil
+shutil.rmtree(os.path.join(repo, "my_run_folder"), ignore_errors=True)   # artefact some tests leave in the cwd
 missing = [t for t in b["stable_pass"] if t not in passed]
 print(f"stable_pass={len(b['stable_pass'])} passed_now={len(passed)} missing={len(missing)}")
 for t in missing[:40]:
